@@ -3,6 +3,7 @@
 //!     tag in1 in2 ... | out1 out2 ...
 //! The extracted Coq model/spec driver (extract/driver) reads the same lines.
 mod util;
+mod c01;
 mod c15;
 
 pub struct Opts {
@@ -38,6 +39,7 @@ fn main() {
     }
     let deck = if cfg!(feature = "shortdeck") { "short" } else { "std" };
     let summary = match args[1].as_str() {
+        "c01" => c01::run(&o, deck),
         "c15" => c15::run(&o, deck),
         x => {
             eprintln!("unknown check {}", x);
